@@ -154,8 +154,17 @@ type ExploreStats struct {
 // Explore runs the DFS. visit is called once per execution with its choices and
 // result; returning false stops the search (e.g. enough violations recorded).
 func Explore(bound int, budget *Budget, run func(*Chooser) Result, visit func([]Point, Result) bool) ExploreStats {
+	return ExploreSplit(bound, budget, 0, 1, run, visit)
+}
+
+// ExploreSplit is Explore for one scenario whose execution tree is divided among nparts
+// processes: every part runs the root execution (only part 0 reports it), the root's
+// children are dealt out round-robin in their deterministic order, and each part explores the
+// whole subtrees below its children. The union over all parts is exactly Explore's set.
+func ExploreSplit(bound int, budget *Budget, part, nparts int, run func(*Chooser) Result, visit func([]Point, Result) bool) ExploreStats {
 	var st ExploreStats
 	stack := [][]Point{nil}
+	root := true
 	for len(stack) > 0 {
 		if budget.Expired() || (budget != nil && budget.MaxExec > 0 && st.Execs >= budget.MaxExec) {
 			st.Capped = true
@@ -174,7 +183,11 @@ func Explore(bound int, budget *Budget, run func(*Chooser) Result, visit func([]
 		if len(c.pts) > st.MaxPoints {
 			st.MaxPoints = len(c.pts)
 		}
-		if !visit(c.pts, res) {
+		isRoot := root
+		root = false
+		if isRoot && nparts > 1 && part != 0 {
+			st.Execs-- // reported by part 0
+		} else if !visit(c.pts, res) {
 			st.Capped = true
 			return st
 		}
@@ -184,6 +197,7 @@ func Explore(bound int, budget *Budget, run func(*Chooser) Result, visit func([]
 		for i, p := range c.pts {
 			costBefore[i+1] = costBefore[i] + p.Cost
 		}
+		nth := 0
 		for i := len(c.pts) - 1; i >= len(prefix); i-- {
 			p := c.pts[i]
 			for alt := p.N - 1; alt >= 1; alt-- {
@@ -192,6 +206,10 @@ func Explore(bound int, budget *Budget, run func(*Chooser) Result, visit func([]
 					ac = p.costs[alt]
 				}
 				if costBefore[i]+ac > bound {
+					continue
+				}
+				nth++
+				if isRoot && nparts > 1 && nth%nparts != part {
 					continue
 				}
 				child := make([]Point, i+1)
@@ -442,8 +460,15 @@ func LoadReplay() (*Replay, error) {
 // signature differs the harness is nondeterministic and that is reported as a
 // machinery failure instead of a violation.
 func RunScenario(rep *Reporter, scn interface{}, bound int, budget *Budget, run func(*Chooser) Result) ExploreStats {
-	rep.Scenario()
-	st := Explore(bound, budget, run, func(ch []Point, res Result) bool {
+	return RunScenarioSplit(rep, scn, bound, budget, 0, 1, run)
+}
+
+// RunScenarioSplit is RunScenario for a scenario that all shards explore together (see ExploreSplit).
+func RunScenarioSplit(rep *Reporter, scn interface{}, bound int, budget *Budget, part, nparts int, run func(*Chooser) Result) ExploreStats {
+	if part == 0 || nparts <= 1 {
+		rep.Scenario()
+	}
+	st := ExploreSplit(bound, budget, part, nparts, run, func(ch []Point, res Result) bool {
 		if res.Verdict == "violation" {
 			for k := 0; k < 2; k++ {
 				c := NewChooser(ch)
